@@ -215,6 +215,10 @@ class _ReadSourceGenerator:
 
             # Everything else - basic and composite types (and arrays of them)
             else:
+                if self.align and field.offset is None:
+                    # After a dynamic field the padding of every field depends on the stream position, so fields can't
+                    # be merged into one statically padded block
+                    yield from flush()
                 if not current_block:
                     # A block that starts after a structure, array or bit field may begin with alignment padding
                     yield from align_to_field(field)
